@@ -29,11 +29,24 @@ BUILD = ROOT / "build"
 # (VERIF_REPO=<scratch worktree>, used to test the checks against seeded changes) gets its own directory so
 # that it never evicts the executables of a concurrent run against /repo
 HBUILD = BUILD if REPO == Path("/repo") else BUILD / ("alt-" + hashlib.md5(str(REPO).encode()).hexdigest()[:8])
-COQ = ROOT / "coq"
+COQ_MAIN = ROOT / "coq"
 # evidence and replay files of a run against another checkout never land in the committed directories
 _alt = None if REPO == Path("/repo") else HBUILD
 EVID = Path(os.environ.get("VERIF_EVIDENCE_DIR", str(ROOT / "evidence" if _alt is None else _alt / "evidence")))
 REPLAY = Path(os.environ.get("VERIF_REPLAY_DIR", str(ROOT / "replay" if _alt is None else _alt / "replay")))
+# ... and works in its own copy of the Coq development (the kernels regenerated from THAT checkout and everything
+# rebuilt from them live there), so that it neither disturbs nor is disturbed by runs against /repo
+COQ = COQ_MAIN if _alt is None else _alt / "coq"
+DRV_BUILD = BUILD if _alt is None else _alt
+
+
+def sync_alt_coq():
+    """refresh the private copy of coq/ (sources AND compiled files: only what depends on a regenerated kernel is rebuilt)"""
+    if _alt is None:
+        return
+    COQ.mkdir(parents=True, exist_ok=True)
+    sh(["rsync", "-a", "--delete", "--exclude", ".lia.cache", "--exclude", ".nia.cache", "--exclude", ".project.lock",
+        "--exclude", ".build.lock", str(COQ_MAIN) + "/", str(COQ) + "/"], timeout=600)
 
 ALLOWED_AXIOMS = {
     # axioms declared by the Coq standard library itself (named in DESIGN.md section 7)
@@ -97,7 +110,9 @@ def include_hash():
 
 # --------------------------------------------------------------------------- Coq stage
 def coq_project():
-    return sh(["make", "-s", "coqproject"], cwd=ROOT, timeout=120)
+    sync_alt_coq()
+    env = dict(os.environ, VERIF_REPO=str(REPO), VERIF_COQ_DIR=str(COQ))
+    return sh(["make", "-s", "coqproject", f"COQDIR={COQ}"], cwd=ROOT, timeout=300, env=env)
 
 
 def coq_build(pid, extra_targets=()):
@@ -129,7 +144,7 @@ def coq_assumptions(pid):
 
 def coq_assumptions_file(pid, src):
     names = re.findall(r"^\s*Print Assumptions\s+([\w.']+)\s*\.", src.read_text(), flags=re.M)
-    outdir = BUILD / pid
+    outdir = DRV_BUILD / pid
     outdir.mkdir(parents=True, exist_ok=True)
     rc, out, err = sh(["timeout", "900", "coqc", "-Q", ".", "Tetl", "-w",
                        "-notation-overridden,-deprecated-hint-without-locality,-deprecated-instance-without-locality",
@@ -224,9 +239,9 @@ def forbidden_scan(pid=None):
                 depth = max(0, depth - 1)
             for pat in pats:
                 if pat.search(code):
-                    hits.append(f"{p.relative_to(ROOT)}:{ln}: {line.strip()}")
+                    hits.append(f"coq/{p.relative_to(COQ)}:{ln}: {line.strip()}")
             if depth == 0 and re.match(r"\s*(Variable|Variables|Hypothesis|Hypotheses|Context)\b", code):
-                hits.append(f"{p.relative_to(ROOT)}:{ln}: {line.strip()} (outside a section)")
+                hits.append(f"coq/{p.relative_to(COQ)}:{ln}: {line.strip()} (outside a section)")
     return hits
 
 
@@ -239,7 +254,7 @@ def build_driver(pid):
         raise RuntimeError(f"extracted model {model} missing (Coq build failed?)")
     parts = [ROOT / "ocaml" / "prelude.ml", model, ROOT / "ocaml" / "helpers.ml", drv]
     key = file_hash(parts)
-    outdir = BUILD / pid
+    outdir = DRV_BUILD / pid
     outdir.mkdir(parents=True, exist_ok=True)
     exe = outdir / f"driver-{key}"
     if exe.exists():
@@ -438,7 +453,8 @@ def run_part(pid, tier="quick", seed=0, replay=None, report_pid=None):
     gen_problems = []
     for cfg, outv in getattr(prop, "TRANSLATE", ()):
         env = dict(os.environ, VERIF_REPO=str(REPO))
-        rc, out, err = sh([sys.executable, str(ROOT / "translate" / "cxx2gallina.py"), str(ROOT / cfg), str(ROOT / outv)], env=env, timeout=600)
+        outp = (COQ / outv[len("coq/"):]) if outv.startswith("coq/") else (ROOT / outv)
+        rc, out, err = sh([sys.executable, str(ROOT / "translate" / "cxx2gallina.py"), str(ROOT / cfg), str(outp)], env=env, timeout=600)
         try:
             info = json.loads(out.strip().splitlines()[-1])
         except Exception:
